@@ -67,6 +67,9 @@ func rSample[R randRand](r R, n int, k int) []int {
 		out[replace] = next
 	}
 	if n < k {
+		if n < 0 {
+			n = 0 // [0, n) is empty
+		}
 		out = out[:n]
 	}
 	rShuffle(r, out)
